@@ -15,7 +15,7 @@ pub struct P06;
 pub static C06: P06 = P06;
 
 pub const CONTENTS05: [&str; 6] = ["", "a", "bb cc dd", "e<br>f", "中中 g", "<table><tr><td>1</td><td>2</td></tr></table>"];
-pub const CONTENTS06: [&str; 5] = ["", "X", "XX XX XX", "X<br>X", "XXXXXX"];
+pub const CONTENTS06: [&str; 5] = ["", "X", "X1 X2 X3", "X4<br>X5", "X6X7X8X9"];
 
 #[derive(Debug, PartialEq)]
 pub enum Form {
@@ -282,6 +282,35 @@ pub fn check_cells(lines: &[&str], t: &TableCase, w: usize) -> Result<bool, (Str
     if loc.len() != expected {
         return Err(("cell text outside the row bands".into(), format!("{} tokens located in bands, expected {}", loc.len(), expected)));
     }
+    // (0) text inside a cell keeps its order: the word markers (digits) found in the cell's
+    // segment, read line by line, are those of the source cell in source order
+    {
+        // source digits per cell, in table order
+        let mut src_digits: Vec<String> = vec![];
+        for part in t.html.split("<td").skip(1) {
+            let body = part.splitn(2, '>').nth(1).unwrap_or("");
+            let body = body.split("</td>").next().unwrap_or("");
+            src_digits.push(body.chars().filter(|c| c.is_ascii_digit()).collect());
+        }
+        for (ci, c) in t.cells.iter().enumerate() {
+            if let Some(l) = c.3 {
+                let (bi, seg, _, _) = loc[&l];
+                let (y0, y1) = bands[bi];
+                let bars: Vec<usize> = (0..g[y0].len()).filter(|&x| g[y0][x] == '│').collect();
+                let mut got = String::new();
+                for yy in y0..y1 {
+                    for (x, &ch) in g[yy].iter().enumerate() {
+                        if ch.is_ascii_digit() && bars.iter().filter(|&&b| b < x).count() == seg {
+                            got.push(ch);
+                        }
+                    }
+                }
+                if got != src_digits[ci] {
+                    return Err(("text inside a cell is lost, duplicated or reordered".into(), format!("cell {l}: expected word markers {:?}, found {:?}", src_digits[ci], got)));
+                }
+            }
+        }
+    }
     // (1) one cell per segment
     let mut seen: BTreeMap<(usize, usize), char> = BTreeMap::new();
     for (&l, &(b, s, _, _)) in &loc {
@@ -400,7 +429,7 @@ impl Scope for S {
     }
     fn info(&self) -> Info {
         Info {
-            rule: format!("all regular tables of the listed shapes, every row independently tiled by every composition of the column count into colspans, every cell content from 5 (C05: 6) classes ({}), x every width; plain decorator with borders; the output is parsed into a character-cell grid; non-trivial = laid out side by side with >= 2 columns", if self.which == 5 { "empty, short, three words, two lines, wide characters, a nested 1x2 table" } else { "empty, one token, three words, two lines, a long word – one unique letter per cell" }),
+            rule: format!("all regular tables of the listed shapes, every row independently tiled by every composition of the column count into colspans, every cell content from 5 (C05: 6) classes ({}), x every width; plain decorator with borders; the output is parsed into a character-cell grid; non-trivial = laid out side by side with >= 2 columns", if self.which == 5 { "empty, short, three words, two lines, wide characters, a nested 1x2 table" } else { "empty, one token, three words, two lines, a long word – one unique letter per cell, one digit per word" }),
             bounds: json!({"shapes": self.shapes.iter().map(|s| json!({"rows": s.rows, "cols": s.cols, "tables": s.n})).collect::<Vec<_>>(), "widths": format!("1..={}", self.maxw), "contents": if self.which == 5 { CONTENTS05.to_vec() } else { CONTENTS06.to_vec() }}),
             assumptions: vec!["cell text never contains box drawing characters or '/'".into()],
         }
